@@ -6,7 +6,7 @@ ACCEPTED_AXIOMS = {"propext", "Classical.choice", "Quot.sound"}
 TRUSTED_BASE = [
     "Lean 4.33.0 kernel; Mathlib v4.33.0 as compiled under /opt/veriftools",
     "axioms admitted: propext, Classical.choice, Quot.sound (audited with #print axioms on every run); no sorry/admit/native_decide/bv_decide/own axioms (grep, comments stripped)",
-    "translator tools/extract.py (Python AST -> Lean terms); mitigated by running the same generated text on Floats against the real function",
+    "translator tools/extract.py (Python AST -> Lean terms); mitigated indirectly: the bridge theorem forces the translated term to EQUAL the hand model for all inputs, and the hand model's Float instance is run against the real function, so a mistranslation must coincide both with the model (everywhere) and with the code (on the correspondence inputs) to go unnoticed",
     "correspondence harness: generators, canonicalisation, stated tolerances (differential testing, not proof)",
     "IEEE-754 arithmetic is modelled by exact reals/complex numbers: rounding, overflow, NaN are outside the theorems",
     "numpy/pyFFTW/numba/scipy semantics (pad, fftshift, fft2, argsort, cumsum, jit) are modelled from their documentation and exercised by the correspondence run",
